@@ -21,7 +21,7 @@ def step (ws : List String) : String :=
   match ws with
   | ["fixed", a, b, c] =>
     match parseFloat a, parseFloat b, parseFloat c with
-    | some t0, some tend, some dt => showGrid (fixedGrid floatO t0 tend dt)
+    | some t0, some tend, some dt => showGrid (fixedGridK floatO t0 tend dt)
     | _, _, _ => "bad-op"
   | ["fdae", a, b, c] =>
     match parseFloat a, parseFloat b, parseFloat c with
